@@ -52,6 +52,8 @@ pub struct Features {
     /// Restriction, not a feature: multi-task jobs are one pickup + one delivery only (the only multi-task shape whose
     /// task permutations are not sampled at random by the solver).
     pub pd_only: bool,
+    /// Recharge stations with a distance limit between recharges (experimental feature of the format).
+    pub recharges: bool,
 }
 
 impl Features {
@@ -64,7 +66,7 @@ impl Features {
             multi_job, multi_dim, multi_tw, multi_place, tags, skills, groups, compat, order, value, limits, tour_size,
             multi_shift, open_end, latest_departure, unreachable, multi_profile, scale, reloads, shared_reload,
             opt_breaks, req_breaks, relations, nonmetric, asymmetric, objectives, same_location, tight, many_vehicles,
-            replacement, service, pickups, unreachable_random, reload_focus, shift_focus, clustering
+            replacement, service, pickups, unreachable_random, reload_focus, shift_focus, clustering, recharges
         );
         v
     }
@@ -83,7 +85,7 @@ impl Features {
             latest_departure: 1.0, unreachable: 0.5, multi_profile: 0.7, scale: 0.6, reloads: 0.7, shared_reload: 0.5,
             opt_breaks: 0.7, req_breaks: 0.5, relations: 0.7, nonmetric: 0.25, asymmetric: 0.8, objectives: 1.2,
             same_location: 1.0, tight: 0.8, many_vehicles: 0.6, replacement: 0.5, service: 0.6, pickups: 1.2,
-            clustering: 0.5
+            clustering: 0.5, recharges: 0.4
         );
         f.shared_reload = f.shared_reload && f.reloads;
         f.pd_only = allowed.pd_only;
@@ -125,6 +127,7 @@ impl Features {
             shift_focus: false,
             clustering: false,
             pd_only: false,
+            recharges: false,
         }
     }
 }
@@ -417,6 +420,24 @@ pub fn generate(seed: u64, limits: &GenLimits, allowed: &Features) -> GenProblem
                     reloads.push(Value::Object(rm));
                 }
                 shift.insert("reloads".into(), Value::Array(reloads));
+            }
+            if f.recharges && cx.p.chance(0.7) {
+                let n = cx.p.usize(1, 2);
+                let mut stations = vec![];
+                for r in 0..n {
+                    let mut sm = Map::new();
+                    sm.insert("location".into(), loc(cx.p.usize(0, n_loc - 1)));
+                    sm.insert("duration".into(), json!(cx.p.range(0, 600)));
+                    if cx.p.chance(0.2) {
+                        let a = t_start + cx.p.range(0, len / 2);
+                        sm.insert("times".into(), json!([tw(a, (a + cx.p.range(600, len)).min(t_start + len))]));
+                    }
+                    if f.tags && cx.p.chance(0.5) {
+                        sm.insert("tag".into(), json!(format!("recharge{t}_{r}")));
+                    }
+                    stations.push(Value::Object(sm));
+                }
+                shift.insert("recharges".into(), json!({ "maxDistance": cx.p.range(300, 3000), "stations": stations }));
             }
             let mut breaks = vec![];
             if f.opt_breaks && cx.p.chance(0.6) {
